@@ -332,6 +332,17 @@ func checkHistory(h history) *rp.Fail {
 					}
 				}
 			}
+			// appending to one of the returned addresses (to build a key, a log line) is the caller's business: the other values of
+			// the same result stay what they were
+			if dev, ok := res.Value.(*types.Device); ok && dev != nil && res.Err == nil {
+				want := api.DeviceRec(*dev).String()
+				_ = append(dev.IpAddress, 0xde, 0xad, 0xbe, 0xef, 1, 2, 3, 4, 5, 6, 7, 8, 9, 10, 11, 12, 13, 14, 15, 16)
+				_ = append(dev.SubnetMask, 0xfe, 0xed, 0xfa, 0xce, 1, 2, 3, 4, 5, 6, 7, 8, 9, 10, 11, 12, 13, 14, 15, 16)
+				_ = append(dev.MacAddress, 0xaa, 0xbb, 0xcc, 0xdd, 0xee, 0xff, 1, 2, 3, 4)
+				if got := api.DeviceRec(*dev).String(); got != want {
+					return rp.Failf("result/values-share-a-backing-array", "step %d: appending to the IP address / subnet mask / MAC address that %s returned changed another value of the same result:\n  before: %s\n  now:    %s", n, cs.Call.Op, want, got)
+				}
+			}
 			if res.Err == nil && !res.Nil && res.Rec != nil && len(sends) == 1 {
 				results = append(results, held{res, res.Rec.String(), fmt.Sprintf("%s (step %d)", cs.Call.Op, n)})
 			}
@@ -342,6 +353,22 @@ func checkHistory(h history) *rp.Fail {
 			}
 			if f := recheck("after the delivered network buffers were overwritten"); f != nil {
 				return f
+			}
+		case "listen-addr-list":
+			// the list of addresses the client listens on is handed out as the caller's own: overwriting it changes neither a list
+			// handed out earlier nor the next one
+			l1 := u.ListenAddrList()
+			keep := append([]netip.AddrPort(nil), l1...)
+			l0 := u.ListenAddrList()
+			for i := range l1 {
+				l1[i] = netip.AddrPortFrom(netip.AddrFrom4([4]byte{203, 0, 113, 99}), 9)
+			}
+			l2 := u.ListenAddrList()
+			if fmt.Sprint(l2) != fmt.Sprint(keep) || fmt.Sprint(l0) != fmt.Sprint(keep) {
+				return rp.Failf("result/listen-address-list-shared", "step %d: ListenAddrList() returned %v; after the caller overwrote that list in place, a list handed out at the same time reads %v and the next call returns %v", n, keep, l0, l2)
+			}
+			if len(keep) > 0 {
+				observedAfterMutation = true
 			}
 		case "gc":
 			// garbage collections (finalizers run in between) and a burst of other decodes: what the caller holds stays what it was
@@ -689,6 +716,9 @@ func genHistory(t *rapid.T) history {
 		h.Cfg.HasBroadcast, h.Cfg.BroadcastIP, h.Cfg.BroadcastPort = true, [4]byte{192, 168, 1, 255}, 60000
 	}
 	h.Cfg.HasListen, h.Cfg.ListenIP, h.Cfg.ListenPort = true, [4]byte{127, 0, 0, 1}, 60001
+	if rapid.Bool().Draw(t, "listen.any") {
+		h.Cfg.ListenIP = [4]byte{0, 0, 0, 0} // (every interface: ListenAddrList enumerates them)
+	}
 	n := rapid.IntRange(0, 4).Draw(t, "devices")
 	seen := map[uint32]bool{}
 	for i := 0; i < n; i++ {
@@ -721,7 +751,7 @@ func genHistory(t *rapid.T) history {
 	}
 	steps := rapid.IntRange(1, 30).Draw(t, "steps")
 	for i := 0; i < steps; i++ {
-		kind := rapid.SampledFrom([]string{"mutate-slice", "mutate-doors", "mutate-devicelist", "call", "call", "call", "call", "scribble", "scribble", "mutate-returned", "listen", "clone", "gc"}).Draw(t, "kind")
+		kind := rapid.SampledFrom([]string{"mutate-slice", "mutate-doors", "mutate-devicelist", "call", "call", "call", "call", "scribble", "scribble", "mutate-returned", "listen", "clone", "gc", "listen-addr-list"}).Draw(t, "kind")
 		s := step{Kind: kind, I: rapid.IntRange(0, 50).Draw(t, "i"), J: rapid.IntRange(0, 50).Draw(t, "j")}
 		if kind == "call" || kind == "clone" {
 			op := gen.Op(t, true)
